@@ -162,6 +162,7 @@ class EnvDevice(simdev.SimDevice):
         self.reader_cmds = 0
         self.card_active = False
         self.dcalls = 0
+        self.tag_cmds = 0
         self.tag = make_tag(env.get("tag"))
 
     def _act(self, what, result):
@@ -241,6 +242,11 @@ class EnvDevice(simdev.SimDevice):
             rsp = self.tag.command(bytes(data), timeout)
             if rsp is None:
                 raise nfc.clf.TimeoutError("sim: no response")
+            self.tag_cmds += 1
+            odd = self.env.get("odd")
+            if odd and self.tag_cmds == odd[0]:
+                rsp = odd_answer(bytes(rsp), odd[1], self.tag.tech)
+                self.trace.append(("odd", odd[1], len(rsp)))
             return bytearray(rsp)
         return simdev.SimDevice.send_cmd_recv_rsp(self, target, data, timeout)
 
@@ -278,6 +284,30 @@ class EnvDevice(simdev.SimDevice):
                 return bytearray(b"\x0a\x04" + idm)
             raise nfc.clf.BrokenLinkError("sim: reader switched field off")
         return simdev.SimDevice.send_rsp_recv_cmd(self, target, data, timeout)
+
+
+def odd_answer(rsp, kind, tech):
+    """a tag that answers one command with a frame of an unexpected shape
+    (the frame itself is intact: a FeliCa frame keeps a matching length
+    byte).  The callbacks and the return value of connect() do not depend on
+    what a tag answers."""
+    f = tech == "F"
+    body = rsp[1:] if f else rsp
+    if kind == "grow2":
+        body = body + b"\x12\xfc"
+    elif kind == "grow1":
+        body = body + b"\x00"
+    elif kind == "short2":
+        body = body[:-2]
+    elif kind == "short1":
+        body = body[:-1]
+    elif kind == "code":
+        body = bytes([body[0] ^ 0x10]) + body[1:] if body else body
+    elif kind == "one":
+        body = body[:1]
+    else:
+        raise HarnessError("unknown odd answer %r" % kind)
+    return (bytes([len(body) + 1]) + body) if f else body
 
 
 # ----------------------------------------------------------------- options
@@ -321,6 +351,11 @@ def case_strategy():
             "tag": st.sampled_from([None, "t2t", "t2t", "t3t", "t3t", "t4a",
                                     "t4a+dep", "t4a+dep", "t1t", "t1t"]),
             "tag_life": st.sampled_from([3, 12, 30, 1000, 1000]),
+            # one answer of the tag has an unexpected shape
+            "odd": st.one_of(st.none(), st.none(), st.tuples(
+                st.integers(1, 14), st.sampled_from(
+                    ["grow2", "grow2", "grow1", "short2", "short1", "code",
+                     "one"])).map(list)),
             "peer": st.sampled_from([None, None, "initiator", "target"]),
             "peer_time": st.sampled_from([0.3, 1.0, 3.0]),
             # what the application does with the link it is handed in the
